@@ -99,7 +99,9 @@ impl Op {
 }
 
 /// The alphabet of the property for a content of `len` bytes (duplicates removed, order kept)
-fn alphabet(len: usize) -> Vec<Op> {
+/// `extreme`: offsets beyond i64 (Memfs only - the kernel's off_t ends at i64::MAX, so a real file cannot
+/// follow Cursor there)
+fn alphabet(len: usize, extreme: bool) -> Vec<Op> {
     let l = len as i64;
     let mut v: Vec<Op> = vec![];
     let mut push = |o: Op| {
@@ -119,6 +121,11 @@ fn alphabet(len: usize) -> Vec<Op> {
     }
     for n in [-(l + 1), -1, 0, 1] {
         push(Op::Seek(SeekFrom::End(n)));
+    }
+    if extreme {
+        push(Op::Seek(SeekFrom::Start(1u64 << 63)));
+        push(Op::Seek(SeekFrom::Start(u64::MAX)));
+        push(Op::Seek(SeekFrom::End(i64::MAX)));
     }
     v
 }
@@ -492,7 +499,7 @@ where
 {
     let mut ex = Explored::default();
     ex.per_level = vec![0; maxlen + 1];
-    let alphas: Vec<Vec<Op>> = CONTENTS.iter().map(|c| alphabet(c.len())).collect();
+    let alphas: Vec<Vec<Op>> = CONTENTS.iter().map(|c| alphabet(c.len(), backend == "memfs")).collect();
     // frontier per content: flat array of op indexes with stride = level
     let mut frontiers: Vec<Vec<u8>> = CONTENTS.iter().map(|_| vec![]).collect();
     for ci in 0..CONTENTS.len() {
@@ -1318,8 +1325,9 @@ pub fn run(ctx: &Ctx) -> i32 {
         }
     }
     let max_std = read_maxlen_stdfs(ctx.tier);
-    let expected_std_level1: u64 = CONTENTS.iter().map(|c| alphabet(c.len()).len() as u64).sum();
-    if g.c("r.level.1") != expected_std_level1 || (memfs_setup_ok && mem.per_level[1] != expected_std_level1) {
+    let expected_std_level1: u64 = CONTENTS.iter().map(|c| alphabet(c.len(), false).len() as u64).sum();
+    let expected_mem_level1: u64 = CONTENTS.iter().map(|c| alphabet(c.len(), true).len() as u64).sum();
+    if g.c("r.level.1") != expected_std_level1 || (memfs_setup_ok && mem.per_level[1] != expected_mem_level1) {
         eprintln!("machinery: level-1 sequence count {} / {} differs from the alphabet size {}", g.c("r.level.1"), mem.per_level[1], expected_std_level1);
         return 2;
     }
@@ -1333,7 +1341,7 @@ pub fn run(ctx: &Ctx) -> i32 {
     if let Some(c) = cases.iter().rev().find(|c| c.conv.is_none()) {
         samples.push(wcase_json("memfs+stdfs", c));
     }
-    let alpha_sizes: Vec<String> = CONTENTS.iter().map(|c| format!("{:?}:{}", c, alphabet(c.len()).len())).collect();
+    let alpha_sizes: Vec<String> = CONTENTS.iter().map(|c| format!("{:?}:{}", c, alphabet(c.len(), true).len())).collect();
     let cov = J::obj([
         ("evaluations", J::i(traces)),
         ("distinct_nontrivial", J::i(mem.edge + g.c("r.edge"))),
@@ -1371,7 +1379,7 @@ pub fn run(ctx: &Ctx) -> i32 {
             "oracle = std::io::Cursor<Vec<u8>>; its behaviour at the edges (Ok(0) at/after the end, Err + unchanged position for negative targets) and the equality of std::fs::File with it for these calls are re-established by running them at the start of every run".into(),
             "error kinds are not compared (the statement only says 'is an error'); content visible between a write and the next flush is not looked at".into(),
             "Stdfs: regular files on tmpfs, where a read returns all available bytes up to the buffer size (same as Cursor)".into(),
-            "offsets stay inside i64 and reachable positions stay far below u64::MAX, so a Cursor error always means a negative target".into(),
+            "on Stdfs offsets stay inside i64 and reachable positions stay far below u64::MAX (the kernel's off_t ends at i64::MAX, a real file cannot follow Cursor beyond it); on Memfs the alphabet also holds Start(2^63), Start(u64::MAX) and End(i64::MAX)".into(),
         ],
     })
 }
